@@ -30,5 +30,5 @@ inline void CRVV(int s) { logc(6, s, 0); }
 inline std::runtime_error CTH(int s) { logc(7, s, 0); return std::runtime_error("th" + std::to_string(s)); }
 inline int CRT(int s) { logc(6, s, 0); throw std::runtime_error("rt" + std::to_string(s)); }
 inline void CRTV(int s) { logc(6, s, 0); throw std::runtime_error("rt" + std::to_string(s)); }
-bool make_cexp(int slot, int kind, int ny, int retk);
+bool make_cexp(int slot, int kind, int ny, int retk, int ord);
 }
